@@ -808,6 +808,8 @@ class Context(object):
             raise ValueError('"%s" does not implement the macro interface' % key)
 
         self.contexts[0][macroName(value)] = value
+        # A new definition replaces a \let to a character of the same name
+        self.contexts[0].lets.pop(macroName(value), None)
         if _verif.ENABLED: _verif.emit('ctx.addGlobal', ctx=self, key=key, value=value)
 
     __setitem__ = addGlobal
@@ -833,6 +835,8 @@ class Context(object):
             raise ValueError('"%s" does not implement the macro interface' % key)
 
         self.contexts[-1][macroName(value)] = value
+        # A new definition replaces a \let to a character of the same name
+        self.contexts[-1].lets.pop(macroName(value), None)
         if _verif.ENABLED: _verif.emit('ctx.addLocal', ctx=self, key=key, value=value)
 
     def whichCode(self, char):
@@ -1177,6 +1181,9 @@ class Context(object):
                 return context.lets[command]
             except KeyError:
                 pass
+            # A macro defined in an inner group hides outer \let's
+            if dict.__contains__(context, command):
+                break
         return command
 
     def let(self, dest, source):
@@ -1196,6 +1203,7 @@ class Context(object):
         # \expandafter\let\csname foo\endcsname=1
         if source.catcode == Token.CC_ESCAPE:
             self.top[dest.nodeName] = self[source.nodeName]
+            self.top.lets.pop(dest.nodeName, None)
         else:
             self.top.lets[dest.nodeName] = source
         if _verif.ENABLED: _verif.emit('ctx.let', ctx=self, dest=dest, source=source)
